@@ -286,6 +286,7 @@ def correspond(ctx):
     ctx.notes['family_mode_coverage'] = dict(sorted(cover.items()))
     correspond_formulas(ctx)
     correspond_timepars(ctx)
+    correspond_bernoulli_timeprob(ctx)
     correspond_rejections(ctx)
 
 
@@ -387,6 +388,62 @@ def correspond_timepars(ctx):
         if not ok:
             ctx.broke('correspondence', 'C05.timepar', f"ss.{p['fam']} with ss.{p['kind']} parameters ({p['u1']} in {p['u2']}, dt={p['dt2']}): variates {p['a'][:3]} are not the raw variates {p['b'][:3]} scaled by the conversion factor {p['factor']} ({exp[:3]})",
                       data={k: (v.tolist() if hasattr(v, 'tolist') else v) for k, v in p.items()})
+            return
+
+
+def bern_tp_case(mode, u1, u2, dt2, n, tabseed, ul=None):
+    """ One Bernoulli / time_prob scenario on the real code: returns (message or None, signature) """
+    import starsim as ss
+    ul = ul or dict(day=Fraction(1), week=Fraction(7), month=Fraction(487, 16), year=Fraction(1461, 4))
+    factor = float((Fraction(1) / Fraction(dt2)) * (Fraction(ul[u1]) / Fraction(ul[u2])))
+    base = np.round(np.random.default_rng(tabseed).random(n) * 0.6 + 0.01, 3)
+    user = base.copy()
+    slots = np.arange(n); tr = 'btp_%d' % tabseed
+    if mode == 'callable':
+        tp = ss.time_prob(lambda m, s, u: user, unit=u1, parent_unit=u2, parent_dt=dt2)
+        tp.init(update_values=False)
+    else:
+        tp = ss.time_prob(user, unit=u1, parent_unit=u2, parent_dt=dt2)
+        if mode == 'array-init': tp.init()
+        else: tp.init(update_values=False)
+    b = ss.bernoulli(p=tp); b.init(trace=tr, seed=2, sim=c03.Sim0(slots), slots=slots)
+    r = ss.random(); r.init(trace=tr, seed=2, sim=c03.Sim0(slots), slots=slots)
+    uids = ss.uids(np.arange(n))
+    want_p = 1 - np.exp(np.log(1 - base) / factor)
+    for call in range(1, 4):
+        b.jump_dt(ti=call); r.jump_dt(ti=call)
+        got = np.asarray(b.rvs(uids), dtype=bool)
+        u = np.asarray(r.rvs(uids), dtype=float)
+        exp = u < want_p
+        care = np.abs(u - want_p) > 1e-7
+        if np.any((got != exp) & care):
+            i = int(np.flatnonzero((got != exp) & care)[0])
+            return (f'ss.bernoulli(p=ss.time_prob({mode}, unit={u1!r}) in {u2!r} steps of {dt2}), call {call}: agent {i} with p={base[i]} '
+                    f'(per-step {want_p[i]:.6g}) and uniform draw {u[i]:.6g} was {"selected" if got[i] else "not selected"}'), dict(oracle='bernoulli-timeprob', mode=mode)
+    if not np.array_equal(user, base):
+        return (f'the probability array passed to ss.time_prob ({mode}) was modified in place by sampling: {user[:4]} vs {base[:4]}',
+                dict(oracle='bernoulli-timeprob-mutates-input', mode=mode))
+    return None, None
+
+
+def correspond_bernoulli_timeprob(ctx):
+    """ Bernoulli with a time-wrapped probability (per-agent array, or a callable returning a stored array), sampled on
+        several consecutive steps: on EVERY call the selection must be `u < 1-(1-p)^(1/factor)` for the user's p — the
+        conversion is applied exactly once per call and the user's array is left untouched """
+    rng = ctx.rng
+    ul = unit_len(ctx)
+    units = ['day', 'week', 'month', 'year']
+    for _ in range(ctx.budget(12, 80)):
+        args = dict(mode=rng.choice(['array', 'callable', 'array-init']), u1=rng.choice(units), u2=rng.choice(units),
+                    dt2=rng.choice([1.0, 0.5, 0.25, 2.0, 7.0, 10.0]), n=rng.randint(6, 40), tabseed=rng.randint(0, 10**9))
+        try:
+            msg, sig = bern_tp_case(ul=ul, **args)
+        except Exception as e:
+            ctx.broke('correspondence', 'C05.bernoulli-timeprob', f"{args['mode']} time_prob in bernoulli raised {type(e).__name__}: {e}"); return
+        ctx.case(('bern-timeprob',) + tuple(args.values()), True, sample=dict(kind='bernoulli-time_prob', **args))
+        if msg:
+            ctx.broke('correspondence', 'C05.bernoulli-timeprob', msg)
+            ctx.fail(sig, msg, dict(kind='bern_tp', **args))
             return
 
 
@@ -539,6 +596,8 @@ def replay(ctx, data):
     if k == 'randint_ppf':
         d = ss.randint(low=np.array([data['low']]), high=np.array([data['high']])); d.init(trace='f', seed=0, sim=c03.Sim0(np.arange(1)), slots=np.arange(1)); d._pars = d.pars
         g = int(d.ppf(np.array([data['u']]))[0]); return not (data['low'] <= g < data['high'])
+    if k == 'bern_tp':
+        return bern_tp_case(**{kk: data[kk] for kk in ('mode', 'u1', 'u2', 'dt2', 'n', 'tabseed')})[0] is not None
     if k == 'mono':
         return oracle_bernoulli_mono(data['seed'], data['n'], random.Random(data['seed'])) is not None
     return False
